@@ -38,6 +38,10 @@ def _arr(shape, vals, dtype):
         a = np.array([int(round(t)) for t in v], dtype=np.int64)
     elif dtype == 'float32':
         a = np.array(v, dtype=np.float32)
+    elif dtype in ('int32', 'int16', 'uint8', 'uint16', 'uint32'):
+        info = np.iinfo(dtype)
+        a = np.array([min(info.max, max(info.min, int(round(abs(t) if info.min
+                      == 0 else t)))) for t in v], dtype=dtype)
     else:
         a = np.array(v, dtype=float)
     if shape == ():
@@ -89,6 +93,9 @@ class Arrays(Relation):
             'sx': st.sampled_from(SHAPES), 'sy': st.sampled_from(SHAPES),
             'dx': st.sampled_from(['float', 'int', 'float', 'float32']),
             'dy': st.sampled_from(['float', 'int', 'float']),
+            # the second operand of + - separation: any numeric array type
+            'd2': st.sampled_from(['float', 'float', 'int', 'int32', 'int16',
+                                   'uint8', 'uint16', 'uint32', 'float32']),
             'index': st.sampled_from(['int', 'neg', 'slice', 'slice_step',
                                       'bool', 'intarr', 'tuple', 'ellipsis',
                                       'oob']),
@@ -173,8 +180,10 @@ class Arrays(Relation):
                 if np.shape(wx) == ():
                     ctx.check(got.isscalar, 'index | scalar element not scalar')
         # ---- arithmetic with a second coordinate of the same broadcast shape
-        x2 = _arr(shape, sp['x2'], 'float')
-        y2 = _arr(shape, sp['y2'], 'float')
+        d2 = sp.get('d2', 'float')
+        ctx.label('operand2:' + d2)
+        x2 = _arr(shape, sp['x2'], d2)
+        y2 = _arr(shape, sp['y2'], d2)
         a = PixCoord(bx if shape else x, by if shape else y)
         b = PixCoord(x2, y2)
         s = a + b
@@ -190,14 +199,15 @@ class Arrays(Relation):
                                 + np.abs(np.asarray(b.x, float)))
         toly = 4 * 2.0 ** -52 * (np.abs(np.asarray(a.y, float))
                                  + np.abs(np.asarray(b.y, float)))
-        if sp['dx'] != 'float32':
+        if sp['dx'] != 'float32' and d2 != 'float32':
             ctx.check(np.all(np.abs(np.asarray(back.x, float) - a.x) <= tol)
                       and np.all(np.abs(np.asarray(back.y, float) - a.y) <= toly),
                       'add/sub | not inverse to each other')
         sep = a.separation(b)
         ctx.check(np.shape(sep) == shape and np.array_equal(
-            np.asarray(sep), np.hypot(np.subtract(b.x, a.x),
-                                      np.subtract(b.y, a.y))),
+            np.asarray(sep), np.hypot(
+                np.subtract(np.asarray(b.x, float), np.asarray(a.x, float)),
+                np.subtract(np.asarray(b.y, float), np.asarray(a.y, float)))),
             'separation | not the Euclidean distance')
         for bad in (3, (1, 2), None):
             try:
